@@ -2141,3 +2141,18 @@ def _linalg_inv(ex, a, k):
     out._val = None
     ex.notes.append(('assumed', 'torch.linalg.inv: the matrix is assumed to be nonsingular'))
     return T.derive(out, A)
+
+
+@ext('math.sqrt')
+def _math_sqrt(ex, a, k):
+    v = a[0]
+    if isinstance(v, STensor):
+        raise PyRaise('TypeError', 'only one element tensors can be converted to Python scalars', origin='python')
+    if isinstance(v, (int, float)) and not isinstance(v, bool) and v < 0:
+        raise PyRaise('ValueError', 'math domain error')
+    if isinstance(v, (int, float)) and v == 0:
+        return 0.0
+    r = sym_sqrt(ex, v)
+    if isinstance(r, SymScalar):
+        return SymScalar(r.expr, 'float', 'float')
+    return r
